@@ -23,13 +23,14 @@
 /* per-context state: a well-formed queue of depth >= 1 (NNG_OPT_RECVBUF is
  * 1..8192), its oldest message a real message; STABLE STATE: receivers wait
  * only while the queue is empty */
-/* queue embedded in a harness-built object: the harness points lmq_msgs at the
- * inline two-slot buffer; for the heap case is_fresh re-points it (same states
- * as LMQ_INNER_PRE of modules/lmq/spec.h) */
+/* receive queue of a context.  BOUND: the queue uses a heap array (lmq_alloc >= 2),
+ * as after nni_lmq_init with depth > 2 (the default is 128) or after any
+ * nni_lmq_resize; the inline two-slot form is covered by modules/lmq only.
+ * (A pointer predicate on an element of the inline buffer would be a write at a
+ * symbolic offset into the socket object and defeat field sensitivity.) */
 #define SUB_LMQ_PRE(q)                                                     \
-	((((q)->lmq_alloc == 0 && (q)->lmq_msgs == &(q)->lmq_buf[0]) ||        \
-	     ((q)->lmq_alloc != 0 && (q)->lmq_alloc <= LMQ_MAXALLOC &&         \
-	         __CPROVER_is_fresh((q)->lmq_msgs, (q)->lmq_alloc * sizeof(nng_msg *)))) && \
+	((q)->lmq_alloc != 0 && (q)->lmq_alloc <= LMQ_MAXALLOC &&              \
+	    __CPROVER_is_fresh((q)->lmq_msgs, (q)->lmq_alloc * sizeof(nng_msg *)) && \
 	    LMQ_WF_SCALAR(q))
 #define SUB_CTX_PRE(c, Q)                                                  \
 	(SUB_LMQ_PRE(&(c)->lmq) && (c)->lmq.lmq_cap >= 1 &&                    \
